@@ -8,6 +8,10 @@ hook_commits = subprocess.run(["git", "-C", "/repo", "log", "--format=%H", "--gr
 M_TECH = "symbolic execution of rustc MIR + z3 (SMT over reals), bounded; counterexamples replayed on the native build"
 M_NOTE = " f64 is modelled as exact reals (NaN/inf excluded by assumption; divisors proved non-zero on accepted paths); rounding is outside the claim. Trusted base: rustc MIR dump, the mir2smt interpreter (validated per harness against the real build on sampled vectors), z3."
 CLAIMED = {
+ "C20": dict(
+  text="Bounded symbolic checking of the real code. Engine M executes the MIR of the Mass impls of FuelConverter / Generator / ReversibleEnergyStorage (set_mass with every side-effect option from every Some/None combination of mass and specific power/energy), of Locomotive::set_mass, set_force_max (all side effects), set_mu (all side effects), mu, mass, check_force_max, the inherent derived_mass, and of Consist::mass / force_max for unit patterns with known / unknown masses. From an arbitrary consistent pre-state z3 decides for every value: an accepted update leaves mass = rating / specific value and force_max = mu * mass * g whenever both are known, the side-effect option does exactly what it documents (Extensive changes the rating, Intensive the specific value, None clears it), a rejected update leaves the object unchanged or still consistent, consist mass is the sum of unit masses (None if none known, Err if mixed) and consist force_max is the sum of the units'. One setter call from an arbitrary consistent state is an inductive step over setter sequences.",
+  note="The train-level clause (static mass = cars or override + consist, TrainSimBuilder::make_train_sim_parts / TrainConfig::make_train_params) is NOT covered: those functions go through HashMap<String,u32> lookups that the engine does not model yet. Found and fixed: Locomotive::set_mass and set_force_max(.., Mass) always failed when mu was set (known_findings.json)." + M_NOTE,
+  technique=M_TECH, design_ref="DESIGN.md section 4 (C20)"),
  "C12": dict(
   text="Bounded symbolic checking of the real code. Engine M executes the MIR of SetSpeedTrainSim::solve_step end to end (consist calls on a one-DummyLoco consist, update_res, solve_required_pwr, set_link_and_offset) on a symbolic train state, irregular symbolic time stamps and speeds and a path of symbolic link points, and of train_state::set_link_and_offset alone on 2-6 link points with the position anywhere including exactly on link boundaries. z3 decides: saved time = previous stamp + saved step size, step size = trace step, the front advances by step size * mean of the speeds before and after, total distance grows by |position change|, rear position = front position - train length, and the reported front link and in-link offset identify exactly the front position (base offset + in-link offset = position, 0 < in-link offset, link = the one containing the position).",
   note="One step from an arbitrary state (inductive). The kinematic lines of SpeedLimitTrainSim::solve_required_pwr (time += dt; offset += dt*v_avg; total_dist) are not yet executed by a harness: its force solution involves the braking-curve lookup (planned with C03); the same offset_back defect was fixed there by inspection. Found and fixed: saved offset_back lagged the front by one step (known_findings.json)." + M_NOTE,
